@@ -1,4 +1,4 @@
-CONSTANTS Prog <- TraceProg ResetLocking = "release" EventUnlock = TRUE HandlerFetch = TRUE
+CONSTANTS Prog <- TraceProg ResetLocking = "release" EventUnlock = TRUE HandlerFetch = TRUE Arm = 40 GapLocked = TRUE ResizeSameUnlocks = TRUE
 SPECIFICATION TSpec
 INVARIANTS Clean HolderOK
 POSTCONDITION TraceAccepted
